@@ -11,7 +11,7 @@ MANIFEST = dict(
     category="other",
     text=("(a) Bounded symbolic execution of the real unit construction (parse_unyt_expr, _auto_positive_symbol, "
           "_lookup_unit_symbol, _split_prefix, _get_unit_data_from_expr, Unit.__new__/__mul__/__truediv__/__pow__, "
-          "_get_conversion_factor, in_units) against a registry whose ~145 base scales are z3 reals: for every name and for "
+          "_get_conversion_factor, in_units, define_unit) against a registry whose ~145 base scales are z3 reals: for every name and for "
           "generated compound expressions (<= 4 factors, rational exponents, sqrt, parentheses, coefficients) z3 proves "
           "base_value == coeff * prod(prefix_i*s_i)**e_i for ALL scales, dimensions by an independent exponent-vector algebra, "
           "and x.to(u2) == x*scale(u1)/scale(u2) for all x. (b) GROUND: each of the 145 table rows (and the prefix table) against "
@@ -30,9 +30,10 @@ EXPLANATION = (
 BOUNDS = {
     "quick": "all 3872 exposed names (string route); 400 generated compound expressions (1-4 factors, exponents from E, sqrt, parentheses, "
              "coefficients) by string and - where at most one root of a compound sub-expression occurs, un-nested - by operator route; 160 compound and ~300 atomic commensurable conversion pairs with symbolic x; "
-             "all 145 table rows + 22 prefixes (ground)",
+             "all 145 table rows + 22 prefixes (ground); define_unit (tuple and quantity form, prefixable) over 5 definition shapes x "
+             "{mks, cgs} + a third of the other 5 built-in unit systems as the registry's system, value and defining scales symbolic",
     "thorough": "all names; 6000 generated expressions (1-5 factors); 2000 compound pairs (<= 1 square root, |exponent| <= 3); every ordered pair of table symbols sharing a dimension "
-                "(~1100, with SI prefixes on prefixable ones); all rows (ground)",
+                "(~1100, with SI prefixes on prefixable ones); all rows (ground); define_unit over 5 definition shapes x 7 registry unit systems x 2 forms",
 }
 OUTSIDE = ("unit strings that unyt rejects (acceptance of documented names is C14); offset units in conversions and compounds (C03/C08); "
            "logarithmic units in compounds; exponents outside E and root denominators > 6; IEEE rounding (A1); correctness of the "
@@ -474,9 +475,59 @@ def make_table_case():
     return Case("C02/table/rows", h, bounds="145 rows + offsets + 22 prefixes, exact rationals (ground)")
 
 
+DEFINE_SYSTEMS = ["mks", "cgs", "imperial", "galactic", "solar", "geometrized", "planck"]
+DEFINE_FORMS = [  # (tag, defining unit expression, oracle scale over (sa, sb, table), dimension vector builder)
+    ("atom", "xda"), ("compound", "xda/xdb**2"), ("prefixed", "kxda*xdb"), ("table", "mile/hr"), ("mixed", "xda*g/s**2"),
+]
+
+
+def make_define_case(system, form, how):
+    """define_unit(symbol, definition, registry=reg): the new symbol's SI scale and dimension are those of its definition,
+    whatever unit system the registry prefers; with prefixable=True its SI-prefixed forms scale by exactly the prefix"""
+    tag, expr = form
+
+    def h(ctx):
+        unyt = ctx.mods["unyt"]
+        D = unyt.dimensions
+        sa, sb, v = ctx.real("sa", pos=True), ctx.real("sb", pos=True), ctx.real("v", pos=True)
+        reg = ctx.registry([dict(name="xda", dims=D.length, scale=sa, prefixable=True), dict(name="xdb", dims=D.time, scale=sb)],
+                           unit_system=system)
+        lut = reg.lut
+        table = {"atom": (sa, D.length), "compound": (sa / (sb * sb), D.length / D.time**2), "prefixed": (1000 * sa * sb, D.length * D.time),
+                 "table": (lut["mile"][0] / lut["hr"][0], D.length / D.time), "mixed": (sa * lut["g"][0], D.length * D.mass / D.time**2)}
+        s_def, dims = table[tag]
+        if how == "tuple":
+            value = (v, expr)
+        else:
+            value = ctx.quantity(v, expr, reg)
+        r = call(unyt.define_unit, "xdnew", value, prefixable=True, registry=reg)
+        if r[0] == "raise":
+            ctx.require("define_unit accepts the definition", False, exc=type(r[1]).__name__, msg=str(r[1])[:160])
+            return
+        u = unyt.Unit("xdnew", registry=reg)
+        ctx.require("defined scale == value * scale(definition)", close(u.base_value, v * s_def), expr=expr, system=system)
+        ctx.require("defined dimensions", dimvec(u.dimensions) == dimvec(dims), expr=expr)
+        ku = unyt.Unit("mxdnew", registry=reg)
+        ctx.require("prefixed form of the defined unit", close(ku.base_value, v * s_def / 1000), expr=expr, system=system)
+        x = ctx.real("x")
+        q = ctx.quantity(x, "xdnew**2/xdb", reg)
+        got = payload(q.to(f"({expr})**2/s"))[0]
+        ctx.require("conversion from a compound of the defined unit", close(got, x * v * v / sb * lut["s"][0]), expr=expr, system=system)
+        ctx.observe("scale", u.base_value)
+    return Case(f"C02/define/{system}/{tag}/{how}", h, bounds="define_unit with symbolic value and symbolic scales of the defining units",
+                budget_s=300, weight=2, max_paths=64)
+
+
 def cases(tier, mods):
     from unyt._unit_lookup_table import inv_name_alternatives
+    from .common import check_names
+    check_names(mods, ["xda", "xdb", "xdnew"])
     out = [make_table_case()]
+    for si, system in enumerate(DEFINE_SYSTEMS):
+        for fi, form in enumerate(DEFINE_FORMS):
+            for how in ("tuple", "quantity"):
+                if tier == "thorough" or system in ("mks", "cgs") or (si + fi) % 3 == 0:
+                    out.append(make_define_case(system, form, how))
     names = list(inv_name_alternatives)
     T = tables()
     names += [p + s for p in PREFIX_SYMS for s in T.syms if s in T.prefixable and p + s not in inv_name_alternatives]
